@@ -1,4 +1,5 @@
 mod log;
+mod oracles;
 mod replay;
 mod scripted;
 
@@ -66,6 +67,22 @@ fn main() {
                              "first_drifts": drifts, "feats": feats()});
             std::fs::write(&report, serde_json::to_string_pretty(&rep).unwrap()).unwrap();
             println!("replay: runs={runs} events={events} drift={ndrift} inapplicable={inappl}");
+        }
+        "laws" => {
+            let inp = arg(&args, "--in").expect("--in");
+            let out = arg(&args, "--out").expect("--out");
+            let vals: Vec<Value> = serde_json::from_str(&std::fs::read_to_string(&inp).unwrap()).unwrap();
+            let mut o = std::io::BufWriter::new(std::fs::File::create(&out).unwrap());
+            for r in oracles::laws(&vals) {
+                serde_json::to_writer(&mut o, &r).unwrap();
+                o.write_all(b"\n").unwrap();
+            }
+            o.flush().unwrap();
+            println!("laws: {}", vals.len());
+        }
+        "capprobe" => {
+            let ops: Vec<Value> = serde_json::from_str(&arg(&args, "--ops").expect("--ops")).unwrap();
+            println!("{}", oracles::capprobe(&ops));
         }
         _ => {
             eprintln!("usage: vh replay --in F --out F --report F [--via erased]");
